@@ -574,10 +574,19 @@ def gen_edit(rng, ref, frag, pool, cfg):
                 continue
             feat = rng.choice(cands)
             i = rng.randrange(len(feat["attrs"]))
+            twins = {"1": [True, 1.0, 1], "0": [False, 0.0, 0], "2": [2.0, 2]}
+            twinable = [(f, j) for f in cands for j, a in enumerate(f["attrs"])
+                        if isinstance(a["v"], (bool, int, float)) and a["v"] == a["v"] and
+                        abs(a["v"]) < 3 and float(a["v"]) == int(a["v"]) and
+                        str(int(a["v"])) in twins]
+            force_twin = False
+            if twinable and (cfg.get("twin_bias") or rng.random() < 0.3):
+                feat, i = rng.choice(twinable)
+                force_twin = True
             val = _attr_value(rng, "uvl" if spec["attrs"] == "uvl" else "json", 1)
             cur = feat["attrs"][i]["v"]
-            twins = {"1": [True, 1.0, 1], "0": [False, 0.0, 0], "2": [2.0, 2]}
-            if rng.random() < 0.4 and isinstance(cur, (bool, int, float)) and \
+            if (force_twin or rng.random() < 0.4) and isinstance(cur, (bool, int, float)) and \
+                    cur == cur and abs(cur) < 3 and \
                     str(int(cur)) in twins and float(cur) == int(cur):
                 # same number, other type (1 / true / 1.0): equal for Python's ==, not for a model
                 options = [t for t in twins[str(int(cur))] if type(t) is not type(cur)]
@@ -668,3 +677,26 @@ def _rename_in_expr(expr, old, new):
         return
     for sub in expr[1:]:
         _rename_in_expr(sub, old, new)
+
+
+def case_variant_model(rng, ref):
+    """The same model with its feature names in another letter case (GPS / Gps / gps: the
+    variants of a product line, or a model ported between naming conventions).  None when no
+    name has a usable variant."""
+    new = copy.deepcopy(ref)
+    feats = [f for f, _, _ in rm.walk(new["root"])]
+    taken = set(f["n"] for f in feats)
+    how = rng.choice([str.upper, str.lower, str.swapcase, str.capitalize])
+    changed = 0
+    for feat in feats:
+        old = feat["n"]
+        var = how(old)
+        if var == old or var in taken or len(var) != len(old):
+            continue
+        taken.discard(old)
+        taken.add(var)
+        feat["n"] = var
+        for ctc in new["ctcs"]:
+            _rename_in_expr(ctc["e"], old, var)
+        changed += 1
+    return new if changed else None
